@@ -246,7 +246,7 @@ pub fn run(ctx: &Ctx) -> i32 {
         property: "C14",
         tier,
         seed: ctx.seed,
-        scenarios: n_comp + tier.pick(400, 15_000),
+        scenarios: n_comp + tier.pick(4_000, 100_000),
         threads: super::threads(),
         watchdog: Duration::from_secs(120),
         budget: Duration::from_secs(tier.pick(90, 900)),
